@@ -159,6 +159,7 @@ def build(need_go=True):
     """Returns (coq_ok, coq_log)."""
     with _Lock():
         gate()
+        build_go()
         rc, out = build_coq()
         if rc == 0:
             build_ocaml()
@@ -166,8 +167,6 @@ def build(need_go=True):
             # proofs broken but the models may still compile: build them alone
             sh(["make", "-j16", "-k"] , cwd=COQ, timeout=3000, check=False)
             build_ocaml()
-        if need_go:
-            build_go()
     return rc == 0, out
 
 
